@@ -38,9 +38,13 @@ def market_time(ctx, qn):
 
 
 def check(ctx):
-    M = ctx.M
     from . import c14
     ctx.sub(c14.s1_loop_table)       # a scheduled instant that meets a clock event fires (not before burn-in, inclusive)
+    schedules(ctx)
+
+
+def schedules(ctx):
+    M = ctx.M
     # ---- weekly
     c = 'WeeklyRebalance'
     fn = ctx.fn(c + '._generate_rebalances')
